@@ -26,6 +26,9 @@ ASSUMPTIONS = [
     "enter(None) for an unguarded single child that is None is outside the model (outcome NoneNode, never produced by parsed documents)",
 ]
 TRUSTED = [
+    "dynamic fallback of the table extraction (C18_dynamic.py, used only when the static extractor does not recognise a shape; evidence key `extraction`): "
+    "ENUMERATION ASSUMPTION - the traversal of a node depends only on its class and on which attributes are None, children are dispatched by their own class; "
+    "observed on one maximal instance per node class of lang/ast.py with a recording visitor, a None probe per single child and a replacement probe per attribute",
     "C18_table.py: extraction of the traversal table from the Python `ast` of visitor.py (shape-checked; unknown shapes raise)",
     "hand-written model of `_visit_method`, `map_and_filter`, `classdispatch`, `ChainedVisitor.enter/leave` (tied by the correspondence only)",
 ]
@@ -36,7 +39,12 @@ FIXTURES = REPO / "tests" / "fixtures"
 
 
 def extract(ctx):
-    return {"PyGqlModel/Generated/VisitTable.lean": T.to_lean(T.extract_table())}
+    t = T.get_table()
+    ctx.extra["extraction"] = t["mode"]
+    if t["reason"]:
+        ctx.extra["extraction_fallback_reason"] = t["reason"]
+        ctx.notes.append("static table extraction failed (%s): table observed dynamically" % t["reason"])
+    return {"PyGqlModel/Generated/VisitTable.lean": T.to_lean(t)}
 
 
 # ---------------------------------------------------------------------------------------------------
@@ -411,7 +419,8 @@ class Collector:
 def run(ctx):
     coll = Collector(ctx)
     try:
-        table = T.extract_table()
+        table = T.get_table()
+        ctx.extra["extraction"] = table["mode"]
         ctx.extra["table_methods"] = len(table["methods"])
         ctx.extra["table_steps"] = sum(len(s) for _, s in table["methods"])
     except Exception as e:  # the obligation is already reported by the framework
@@ -557,6 +566,8 @@ def compare(ctx, text, kw, case, out, ans):
             # python went on past a None / mis-shaped attribute: outside the model (see ASSUMPTIONS)
             return
     diff = None
+    if what == "wrong-kind" and ctx.extra.get("extraction") == "dynamic":
+        return   # the observed table has one method per class: which body runs on a node of another class is not observable
     if "err" in out or "err" in ans:
         # wrong-kind replacements: a missing attribute is AttributeError, or TypeError when the class attribute
         # `SupportDirectives.directives = NotImplemented` is found instead: only "both raise" is compared
